@@ -383,6 +383,22 @@ def make_cases(ctx):
                     yield "scsv-%d-%d-%d-%s" % (cmax[1], smax[1], scsv,
                                                 how), dict(
                         scsv=(cmax, smax, scsv), sess=how)
+    # downgrade protection, every (client maximum, forced version) pair:
+    # "natural" = the attacker rewrites the ClientHello and a server that
+    # could do better writes the sentinel itself; "spliced" = an honest
+    # older server, the attacker (or a test) puts either sentinel value in
+    # the ServerHello random
+    for cmax in ((3, 4), (3, 3)):
+        for v in ((3, 3), (3, 2), (3, 1)):
+            if v >= cmax:
+                continue
+            for smax in ((3, 4), (3, 3)):
+                if smax > v:
+                    yield "dg-nat-%d-%d-%d" % (cmax[1], v[1], smax[1]), dict(
+                        downgrade=["natural", cmax, v, smax])
+            for byte in (0, 1):
+                yield "dg-spl-%d-%d-%d" % (cmax[1], v[1], byte), dict(
+                    downgrade=["spliced", cmax, v, byte])
     names = QUICK_SC if ctx.quick else [s.name for s in flavours.ALL]
     for name in names:
         sc = flavours.BY_NAME[name]
@@ -464,9 +480,97 @@ def run_scsv(ctx, cid, P):
     ctx.cell("cell", "scsv|%s|%s|%s|%s" % (cmax, smax, scsv, both))
 
 
+def run_downgrade(ctx, cid, P):
+    how, cmax, v, x = P["downgrade"]
+    cmax, v = tuple(cmax), tuple(v)
+    st = {"applied": False}
+
+    def hello_edit(rec, idx):
+        if rec.type != 22 or len(rec.body) < 4 or st["applied"]:
+            return None
+        if how == "natural" and rec.dir == "c2s" and rec.body[0] == 1:
+            h = wire.parse_client_hello(rec.body[4:])
+            h.version = min(v, h.version)
+            h.exts = [(a, b) for a, b in (h.exts or []) if a != 43]
+            st["applied"] = True
+            return wire.record(22, rec.version,
+                               wire.hs_msg(1, wire.ser_client_hello(h)))
+        if how == "spliced" and rec.dir == "s2c" and rec.body[0] == 2:
+            b = bytearray(rec.raw)
+            # record header 5 + handshake header 4 + version 2 + 24
+            b[5 + 4 + 2 + 24:5 + 4 + 2 + 32] = b"DOWNGRD" + bytes([x])
+            st["applied"] = True
+            return bytes(b)
+        return None
+    smax = tuple(x) if how == "natural" else v
+    cs = settings(minVersion=(3, 0), maxVersion=cmax)
+    ss = settings(minVersion=(3, 0), maxVersion=smax)
+    p = pair.Pair(mitm=hello_edit)
+    tc, ts = p.handshake(Flavor("cert", skey="rsa", cset=cs, sset=ss))
+    ctx.ev()
+    ctx.count("downgrade_runs")
+    W = {"case": cid, "params": P["downgrade"],
+         "outcome": [outcome(tc), outcome(ts)]}
+    key = {"downgrade": how, "client_max": pair.VNAME[cmax],
+           "forced": pair.VNAME[v]}
+    if not st["applied"]:
+        ctx.inconc("downgrade edit not applied in %s" % cid)
+        return
+    recs = p.link.records
+    sh = [r for r in recs if r.dir == "s2c" and r.type == 22 and
+          r.body[:1] == b"\x02"]
+    if not sh:
+        ctx.count("downgrade_no_server_hello")
+        return
+    rnd = bytes(sh[0].body[4 + 2:4 + 2 + 32])
+    shver = (sh[0].body[4], sh[0].body[5])
+    if how == "natural":
+        # RFC 8446 4.1.3: what a 1.3 / 1.2 server writes when it negotiates
+        # less than it could
+        want = None
+        if smax == (3, 4) and shver <= (3, 3):
+            want = b"DOWNGRD\x01" if shver == (3, 3) else b"DOWNGRD\x00"
+        elif smax == (3, 3) and shver <= (3, 2):
+            want = b"DOWNGRD\x00"
+        if want is not None and rnd[24:] != want:
+            ctx.violation(dict(key, clause="sentinel_not_written",
+                               server_max=pair.VNAME[smax]), W,
+                          "server (max %s) negotiated %s with random tail "
+                          "%r" % (pair.VNAME[smax], pair.VNAME.get(shver),
+                                  rnd[24:]))
+            return
+        ctx.count("sentinel_written")
+    # must the client refuse?  a 1.3 client: either value below 1.3;
+    # a 1.2 client: the 1.1 value below 1.2 (RFC 8446 4.1.3)
+    tail = rnd[24:] if how == "natural" else b"DOWNGRD" + bytes([x])
+    must = (cmax == (3, 4) and shver <= (3, 3) and
+            tail in (b"DOWNGRD\x00", b"DOWNGRD\x01")) or \
+        (cmax == (3, 3) and shver <= (3, 2) and tail == b"DOWNGRD\x00")
+    if not must:
+        ctx.count("downgrade_not_judged")
+        return
+    ctx.count("sentinel_seen_by_higher_client")
+    nxt = [r for r in recs if r.dir == "c2s" and r.seq > sh[0].seq]
+    if tc.status == "done":
+        ctx.violation(dict(key, clause="sentinel_ignored"), W,
+                      "client completed after a sentinel-bearing ServerHello")
+    elif not nxt or nxt[0].type != 21:
+        ctx.violation(dict(key, clause="sentinel_wire_order",
+                           got=str(nxt[0].type if nxt else None)), W,
+                      "a client able to do %s was answered %s with %r: its "
+                      "next record is %s, not an alert (it went on with the "
+                      "key exchange)" % (pair.VNAME[cmax], pair.VNAME[shver],
+                                         tail, nxt[0].type if nxt else None))
+    else:
+        ctx.count("sentinel_rejected")
+    ctx.cell("cell", "downgrade|%s|%s|%s|%s" % (how, cmax, v, x))
+
+
 def run_case(ctx, cid, P):
     if "scsv" in P:
         return run_scsv(ctx, cid, P)
+    if "downgrade" in P:
+        return run_downgrade(ctx, cid, P)
     sc = flavours.BY_NAME[P["sc"]]
     label = P["label"]
     base = baseline(sc, label)
